@@ -62,7 +62,7 @@ def reach(snap, v, accept=lambda a, b, l: True):
     return seen
 
 
-def build_graph(rng, hd, cap, n, k, m, stale=False, data=True, tree=False, ids=None, labels=None):
+def build_graph(rng, hd, cap, n, k, m, stale=False, data=True, tree=False, ids=None, labels=None, dangling=False):
     """ops that build a random digraph (cycles, shared targets, parallel edges)
     on handle hd inside the limits; returns (ops, vertices)"""
     labels = labels or SAFE_LABELS
@@ -77,6 +77,12 @@ def build_graph(rng, hd, cap, n, k, m, stale=False, data=True, tree=False, ids=N
         a, b = rest[0], rest[1]
         ops += ["ADD %s %d" % (hd, a), "ADD %s %d" % (hd, b), "BIND %s %d %d %s" % (hd, a, b, gen.lab_alpha(9)),
                 "PUT %s %d V0a0b" % (hd, b), "DATA %s %d" % (hd, b)]
+    if stale and len(ids) >= 2 and rng.chance(1, 2):
+        # a past life of two of the vertices themselves: edges but no data on the first one, then collected;
+        # the ADD loop below re-adds them (a recycled slot must come back blank)
+        a, b = ids[0], ids[1]
+        ops += ["ADD %s %d" % (hd, a), "ADD %s %d" % (hd, b), "BIND %s %d %d %s" % (hd, a, b, gen.lab_alpha(8)),
+                "BIND %s %d %d %s" % (hd, b, a, gen.lab_greek(0x3c3)), "PUT %s %d V0c" % (hd, b), "DATA %s %d" % (hd, b)]
     for v in ids:
         ops.append("ADD %s %d" % (hd, v))
     used = {v: [] for v in ids}
@@ -103,11 +109,30 @@ def build_graph(rng, hd, cap, n, k, m, stale=False, data=True, tree=False, ids=N
                 used[v1].append(a)
             ops.append("BIND %s %d %d %s" % (hd, v1, v2, a))
     if data:
+        isolated = [v for v in ids if not any(o.split()[0] == "BIND" and str(v) in o.split()[2:4] for o in ops)]
         for v in ids:
             if rng.chance(1, 3):
                 ops.append("PUT %s %d %s" % (hd, v, gen.gen_data(rng)))
-                if rng.chance(1, 4) and False:
+                # a datum that has been read and survives: ungrouped vertices never die; a grouped one survives while
+                # another member holds unread data (put one there first)
+                if v in isolated and rng.chance(1, 2):
                     ops.append("DATA %s %d" % (hd, v))
+                elif v not in isolated and rng.chance(1, 4):
+                    mates = [int(o.split()[3]) if int(o.split()[2]) == v else int(o.split()[2])
+                             for o in ops if o.split()[0] == "BIND" and str(v) in o.split()[2:4]]
+                    if mates:
+                        ops.append("PUT %s %d %s" % (hd, mates[0], gen.gen_data(rng)))
+                        ops.append("DATA %s %d" % (hd, v))
+    if dangling and len(ids) >= 2 and cap - len(ids) >= 4:
+        # an edge from a present vertex to a vertex whose group has been collected since
+        grouped = [v for v in ids if any(o.split()[0] == "BIND" and str(v) in o.split()[2:4] for o in ops)]
+        rest = [v for v in range(cap) if v not in ids][2:]
+        if grouped and len(rest) >= 2:
+            v, x, y = rng.pick(grouped), rest[0], rest[1]
+            free = [l for l in labels if l not in used[v]]
+            if free and len(used[v]) < n:
+                ops += ["ADD %s %d" % (hd, x), "ADD %s %d" % (hd, y), "BIND %s %d %d %s" % (hd, x, y, gen.lab_alpha(3)),
+                        "BIND %s %d %d %s" % (hd, v, x, free[0]), "PUT %s %d V0e" % (hd, y), "DATA %s %d" % (hd, y)]
     return ops, ids
 
 
@@ -132,41 +157,38 @@ class C18(Prop):
             N = r.pick([2, 4, 16])
             cap = r.pick([6, 12, 20, 256])
             k = 1 + r.below(min(10, cap - 2))
-            ops1, ids = build_graph(r, "g", cap, N, k, r.below(2 * k + 1), stale=r.chance(1, 2))
+            ops1, ids = build_graph(r, "g", cap, N, k, r.below(2 * k + 1), stale=r.chance(1, 2), dangling=r.chance(1, 3))
             ops = ["NEW g %d" % cap] + ops1
-            # the same content again: other capacity, shuffled order, other representation of the data
+            # the same content again: other capacity, shuffled order, other representation of the data.
+            # The content of g is computed by the steering tracker (present set, last edge per label, last datum);
+            # graphs with an edge into a collected vertex cannot be rebuilt through the interface and are exported once only
             cap2 = cap + r.below(5)
-            adds = [o for o in ops1 if o.startswith("ADD") and int(o.split()[2]) in ids]
-            binds = [o for o in ops1 if o.startswith("BIND") and int(o.split()[2]) in ids]
-            puts = [o for o in ops1 if o.startswith("PUT") and int(o.split()[2]) in ids]
-            last_put = {}
-            for o in puts:
-                last_put[int(o.split()[2])] = o
-            r.fork()
-            adds2 = list(adds)
-            for j in range(len(adds2) - 1, 0, -1):
-                jj = r.below(j + 1)
-                adds2[j], adds2[jj] = adds2[jj], adds2[j]
-            # binds: keep the last target per (vertex,label), emit in another order
-            lastb = {}
-            for o in binds:
-                t = o.split()
-                lastb[(t[2], t[4])] = o
-            b2 = list(lastb.values())
-            for j in range(len(b2) - 1, 0, -1):
-                jj = r.below(j + 1)
-                b2[j], b2[jj] = b2[jj], b2[j]
-            ops2 = ["NEW h %d" % cap2]
-            for o in adds2 + b2:
-                t = o.split()
-                ops2.append(" ".join([t[0], "h"] + t[2:]))
-            for v, o in last_put.items():
-                t = o.split()
-                bs = bytes.fromhex(data_bytes(t[3]))
-                other = ("V" + bs.hex()) if t[3].startswith("B") else (
-                    "B%s:%d" % ((bs + bytes(0xA0 + x for x in range(8 - len(bs)))).hex(), len(bs)) if len(bs) <= 8 else t[3])
-                ops2.append("PUT h %d %s" % (v, other))
-            ops += ["SNAP g", "XML g", "DOT g"] + ops2 + ["SNAP h", "XML h", "DOT h"]
+            t = gen.Tracker(N, cap)
+            for o in ops1:
+                gen.apply_op(t, o)
+            pres = sorted(t.present)
+            dangling = any(w not in t.present for v in pres for w in t.edges.get(v, {}).values())
+            ops2 = []
+            if not dangling and not t.out_of_limits:
+                adds2 = list(pres)
+                for j in range(len(adds2) - 1, 0, -1):
+                    jj = r.below(j + 1)
+                    adds2[j], adds2[jj] = adds2[jj], adds2[j]
+                b2 = [(v, w, a) for v in pres for a, w in t.edges.get(v, {}).items()]
+                for j in range(len(b2) - 1, 0, -1):
+                    jj = r.below(j + 1)
+                    b2[j], b2[jj] = b2[jj], b2[j]
+                ops2 = ["NEW h %d" % cap2] + ["ADD h %d" % v for v in adds2] + ["BIND h %d %d %s" % e for e in b2]
+                for v in pres:
+                    d = t.datum.get(v)
+                    if d is None:
+                        continue
+                    bs = bytes.fromhex(data_bytes(d))
+                    other = ("V" + bs.hex()) if d.startswith("B") else (
+                        "B%s:%d" % ((bs + bytes(0xA0 + x for x in range(8 - len(bs)))).hex(), len(bs)) if len(bs) <= 8 else d)
+                    ops2.append("PUT h %d %s" % (v, other))
+                ops2 += ["SNAP h", "XML h", "DOT h"]
+            ops += ["SNAP g", "XML g", "DOT g"] + ops2
             hs.append(History("c18-%d" % i, N, ops, {"stale": True}))
         return hs
 
@@ -262,7 +284,7 @@ class C20(Prop):
             N = r.pick([1, 2, 4, 16])
             cap = r.pick([4, 8, 14, 30])
             k = 1 + r.below(min(12, cap))
-            ops1, ids = build_graph(r, "g", cap, N, k, r.below(3 * k + 1), stale=False)
+            ops1, ids = build_graph(r, "g", cap, N, k, r.below(3 * k + 1), stale=r.chance(1, 3), dangling=r.chance(1, 3))
             ops = ["NEW g %d" % cap] + ops1 + ["SNAP g", "DEBUG g"]
             for v in ids:
                 ops += ["INSPECT g %d" % v, "VPRINT g %d" % v]
@@ -287,11 +309,30 @@ class C20(Prop):
             stack = stack[: d + 1]
             listed.append((stack[d], m.group(2), int(m.group(3))))
             stack.append(int(m.group(3)))
-        rs = reach(snap, v)
-        want = sorted((u, label_text(l), w) for u in rs for l, w in all_edges(snap, u))
-        if sorted(listed) != want:
-            return {"reason": "inspect(%d) does not list every edge of every reachable vertex exactly once" % v, "index": i,
-                    "expected": str(want)[:600], "observed": str(sorted(listed))[:600]}
+        # required: every edge of every present vertex reachable through present vertices, exactly once;
+        # tolerated in addition: edges stored in absent (collected) slots that the walk passes through (the code follows
+        # stored edges whatever the tags; the property speaks about vertices, i.e. present ones), each at most once
+        pres = set(present(snap))
+        rs_all = reach(snap, v)
+        rs_pres = reach(snap, v, lambda a, b, l: a in pres)
+        rs_pres = {u for u in rs_pres if u in pres}
+        want = sorted((u, label_text(l), w) for u in rs_pres for l, w in all_edges(snap, u))
+        extra_ok = sorted((u, label_text(l), w) for u in rs_all - rs_pres for l, w in all_edges(snap, u))
+        got = sorted(listed)
+        rest = list(got)
+        for e in want:
+            if e in rest:
+                rest.remove(e)
+            else:
+                return {"reason": "inspect(%d) does not list edge %s of a reachable vertex" % (v, e), "index": i,
+                        "expected": str(want)[:600], "observed": str(got)[:600]}
+        allowed = list(extra_ok)
+        for e in rest:
+            if e in allowed:
+                allowed.remove(e)
+            else:
+                return {"reason": "inspect(%d) lists %s which is a repetition or not an edge of a reachable vertex" % (v, e),
+                        "index": i, "expected": str(want)[:600], "observed": str(got)[:600]}
         return None
 
     def oracle(self, h, il):
@@ -301,6 +342,8 @@ class C20(Prop):
                 if t[0] in ("INSPECT", "DEBUG", "VPRINT") and res == "PANIC":
                     return {"reason": "%s panicked" % t[0], "index": i, "expected": "a listing", "observed": "PANIC"}
                 continue
+            if t[0] in ("INSPECT", "VPRINT") and slot(snap, int(t[2]))["branch"] == 0:
+                continue       # the property is about present start vertices
             if t[0] == "INSPECT":
                 f = self.check_inspect(hex_text(res), snap, int(t[2]), i)
                 if f:
@@ -459,7 +502,19 @@ def merge_history(rng, hid, extras):
     N = rng.pick([4, 8, 16])
     cap = rng.pick([16, 24, 40])
     lsize, rsize = 1 + rng.below(5), 1 + rng.below(5)
-    lops, lroot, lkept, liso = tree_ops(rng, "g", cap, N, lsize, MERGE_LABELS)
+    # half of the left graphs have a past: a group on low ids (with edges under the merge labels and data) that was
+    # collected, so that the ids merge() obtains from next_id() are recycled slots with stale content
+    stale, stale_ids = [], []
+    if rng.chance(1, 2):
+        a, b = 0, 1
+        stale_ids = [a, b]
+        stale = ["ADD g %d" % a, "ADD g %d" % b, "BIND g %d %d %s" % (a, b, rng.pick(MERGE_LABELS)),
+                 "BIND g %d %d %s" % (b, a, rng.pick(MERGE_LABELS)), "PUT g %d V0a0b0c" % a, "PUT g %d V0d" % b,
+                 "DATA g %d" % a, "DATA g %d" % b]
+    pool = [v for v in range(cap) if v not in stale_ids]
+    lids = [pool.pop(rng.below(len(pool))) for _ in range(lsize)]
+    lops, lroot, lkept, liso = tree_ops(rng, "g", cap, N, lsize, MERGE_LABELS, ids=lids)
+    lops = stale + lops
     rops, rroot, rkept, riso = tree_ops(rng, "r", cap, N, rsize, MERGE_LABELS)
     ops = ["NEW g %d" % cap] + lops + ["NEW r %d" % cap] + rops
     # isolated left vertices are fine (the left graph need only be a tree below `left`);
@@ -597,6 +652,11 @@ class C11(MergeProp):
                         if slot(g0, tgt)["branch"] != 0:
                             return {"reason": "the vertex created for a lacking path got id %d which was present" % tgt, "index": i,
                                     "expected": "an absent id", "observed": str(tgt)}
+                        wx, nx = r0["V"][w], g1["V"][tgt]
+                        if [l2 for l2, _ in nx["edges"]] != [l2 for l2, _ in wx["edges"]] or (nx["pers"] == "E") != (wx["pers"] == "E"):
+                            return {"reason": "the vertex %d created for right vertex %d carries edges/data the right tree does not demand" % (tgt, w),
+                                    "index": i, "expected": "labels %s, data %s" % ([l2 for l2, _ in wx["edges"]], wx["pers"] != "E"),
+                                    "observed": "labels %s, data %s" % ([l2 for l2, _ in nx["edges"]], nx["pers"] != "E")}
                     elif tgt0 != tgt:
                         return {"reason": "existing edge %s of %d was redirected from %d to %d" % (l, gv, tgt0, tgt), "index": i,
                                 "expected": str(tgt0), "observed": str(tgt)}
@@ -961,7 +1021,16 @@ class C14(Prop):
         return hs
 
     def oracle(self, h, il):
-        if h.meta.get("fault") or "count" not in h.meta:
+        if h.meta.get("fault"):
+            # C14_step_err / C14_step_malformed: the model answers Err exactly for a syntactically malformed command
+            # (unless a $variable before the malformed part exhausts the allocator); a panic of the implementation
+            # where the model says Err is the property's "Err rather than a panic" failing
+            ml = self.model_lines.get(h.hid)
+            if ml and len(ml) > 1 and len(il) > 1 and ml[1].startswith("SCRIPT -> err") and il[1].startswith("SCRIPT -> PANIC"):
+                return {"reason": "a syntactically malformed script makes deploy_to() panic instead of returning Err",
+                        "index": 1, "expected": "err", "observed": "PANIC   text=" + repr(hex_text(h.ops[1].split()[2]))[:300]}
+            return None
+        if "count" not in h.meta:
             return None
         if len(il) < len(h.ops):
             return {"reason": "history ended early (panic inside the limits)", "index": len(il) - 1,
@@ -1055,7 +1124,29 @@ class C07(SpecProp):
         return None
 
     def extra_coverage(self):
-        return getattr(self, "_asan", {})
+        return getattr(self, "_asan", {"asan": "not run in this tier (thorough only)"})
+
+    def post_run(self, hs, impl, tier):
+        if tier != "thorough":
+            return None
+        b = engine.build_harness_asan()
+        sample = hs if len(hs) <= 20000 else hs[:20000]
+        traces, problems = engine.run_impl_asan(sample)
+        self._asan = {"asan": {"histories": len(sample), "build_wall_s": round(b["wall_s"], 1),
+                               "abnormal_process_ends": len(problems),
+                               "toolchain": "cargo +nightly, RUSTFLAGS=-Zsanitizer=address, ASAN_OPTIONS=detect_leaks=0"}}
+        for p in problems:
+            hid = p.get("first_unfinished")
+            hh = next((h for h in sample if h.hid == hid), None)
+            return (hh, {"reason": "harness under AddressSanitizer ended abnormally (rc=%s): %s" % (p["rc"], p["stderr"][-1500:]),
+                         "index": -1})
+        for h in sample:
+            a, b2 = traces.get(h.hid), impl.get(h.hid)
+            if a is not None and b2 is not None and a != b2:
+                j = next((i for i, (x, y) in enumerate(zip(a, b2)) if x != y), min(len(a), len(b2)))
+                return (h, {"reason": "trace under AddressSanitizer differs from the plain build at call %d" % j, "index": j,
+                            "expected": (b2[j] if j < len(b2) else "<end>")[:400], "observed": (a[j] if j < len(a) else "<end>")[:400]})
+        return None
 
 
 # ------------------------------------------------------------------ C19
